@@ -25,18 +25,10 @@ def _floyd_warshall_rust(
     """Rust adapter for Floyd-Warshall algorithm."""
     rust = get_rust_module()
 
-    # For undirected graphs, expand to bidirectional edges
+    # For undirected graphs, expand every edge to both directions; the kernel
+    # keeps the minimum weight per ordered pair, exactly like the Python path.
     if not directed:
-        edge_set: set[tuple[int, int]] = set()
-        expanded: list[tuple[int, int, float]] = []
-        for u, v, w in edges:
-            if (u, v) not in edge_set:
-                expanded.append((u, v, w))
-                edge_set.add((u, v))
-            if (v, u) not in edge_set:
-                expanded.append((v, u, w))
-                edge_set.add((v, u))
-        edges = expanded
+        edges = [e for u, v, w in edges for e in ((u, v, w), (v, u, w))]
 
     result = rust.floyd_warshall(n_nodes, edges)
 
